@@ -132,3 +132,14 @@ def observer_value_callback_panics(case, mismatch):
 
 
 PREDICATES['observer_value_callback_panics'] = observer_value_callback_panics
+
+
+def tochannel_handout_after_sync_source_ended(case, mismatch):
+    """ToChannel over a synchronous source, the subscribing goroutine held right before the hand-out (Park), and the observer never got the
+    channel: the trace has no handout event at all and is rejected at its end"""
+    sc = case.get('scenario') or {}
+    evs = case.get('events') or []
+    return sc.get('Op') == 'tochannelsync' and bool(sc.get('Park')) and not any(e.get('e') == 'handout' for e in evs) and (mismatch.get('event') or {}).get('e') == 'end'
+
+
+PREDICATES['tochannel_handout_after_sync_source_ended'] = tochannel_handout_after_sync_source_ended
